@@ -343,3 +343,215 @@ func ruleReplayedDeleteNotifiesGroups(c *eng.Ctx) {
 	}
 	c.Check(ok, "a replayed stream deletion reaches the consumer groups at its own log position", p.Pos(fn.Pos()), "RemoveStream(recovered = true) notifies the groups with the entry's index before it returns", "a replayed DELETE_STREAM only tombstones the stream (path "+w.String()+"); the groups are told when the tombstoned stream is finally removed, with the index of the last replayed entry: the group epoch after a restart differs from the one on servers that applied the log live, and consumers get ErrGroupEpoch")
 }
+
+// ruleIdentityCheckAndDeleteAtomic (R13.4 extension): the look-up of the group's current member, the identity test and the
+// delete are one hold of consumersMu. Otherwise a replacement can be registered between the test and the delete, and the
+// ending loop deletes its successor's entry.
+func ruleIdentityCheckAndDeleteAtomic(c *eng.Ctx) {
+	p := c.P
+	fn := c.Fn("server.(*partition).removeGroupSubscriber")
+	if fn == nil {
+		return
+	}
+	cons := p.Field("server", "partition", "consumers")
+	la := eng.LocksOf(p, fn, 0)
+	var lookups, deletes []ssa.Instruction
+	eng.Instrs(fn, func(in ssa.Instruction) {
+		switch x := in.(type) {
+		case *ssa.Lookup:
+			if eng.Load(cons, nil)(x.X) {
+				lookups = append(lookups, in)
+			}
+		case *ssa.Call:
+			if b, isB := x.Call.Value.(*ssa.Builtin); isB && b.Name() == "delete" && eng.Load(cons, nil)(x.Call.Args[0]) {
+				deletes = append(deletes, in)
+			}
+		}
+	})
+	ok := len(lookups) >= 1 && len(deletes) >= 1
+	why := "the member table is not looked up and deleted from in removeGroupSubscriber itself (the look-up went into a helper that releases the lock before the delete)"
+	for _, d := range deletes {
+		if !lockHeld(la.At(d), ".consumersMu", 2) {
+			ok, why = false, "the delete runs without consumersMu"
+		}
+		for _, l := range lookups {
+			if !lockHeld(la.At(l), ".consumersMu", 2) {
+				ok, why = false, "the look-up runs without consumersMu"
+			}
+			if unlockedBetween(fn, l, d) {
+				ok, why = false, "consumersMu is released between the identity test and the delete"
+			}
+		}
+	}
+	c.Check(ok, "identity test and de-registration are one critical section", p.Pos(fn.Pos()), "lookup, member.sub == sub and delete under one hold of consumersMu", "removeGroupSubscriber: "+why+": a replacement registered in between is deleted by the loop of the member it replaced; it stays active but unrecorded, and the next subscriber of the group runs next to it")
+}
+
+// ruleConsumersTableNeverReset (R13.1 extension): the table of active group members is created once, with the partition
+// object; nothing replaces it wholesale (a reset on becoming leader forgets subscriptions that are still running).
+func ruleConsumersTableNeverReset(c *eng.Ctx) {
+	p := c.P
+	cons := p.Field("server", "partition", "consumers")
+	n := 0
+	for _, a := range eng.FieldAccesses(p, cons) {
+		st, isStore := a.Use.(*ssa.Store)
+		if !a.Write || !isStore {
+			continue
+		}
+		if _, isFA := st.Addr.(*ssa.FieldAddr); !isFA {
+			continue
+		}
+		n++
+		k := ir.FuncKey(ir.Outermost(a.Fn))
+		c.Check(k == "server.(*Server).newPartition", "partition.consumers assigned in "+k, c.Pos(st), "the member table is created with the partition object", "the table of active group members is replaced on a live partition: subscriptions that are still running are forgotten, and the next subscriber of the group is admitted next to them")
+	}
+	c.Check(n >= 1, "partition.consumers is created with the partition", "", "assignment in newPartition found", "no assignment of partition.consumers found")
+}
+
+// ruleStartResolvedBeforeStop (R10.3 extension): Subscribe resolves the start position before the stop position. Both read
+// the log end; a publish between the two reads can only move the later read forward, so start <= stop holds only in this order.
+func ruleStartResolvedBeforeStop(c *eng.Ctx) {
+	fn := c.Fn("server.(*partition).Subscribe")
+	if fn == nil {
+		return
+	}
+	st := eng.CallsIn(fn, "server.partition.getStartOffset")
+	sp := eng.CallsIn(fn, "server.partition.getStopOffset")
+	if len(st) != 1 || len(sp) != 1 {
+		c.Unresolved("getStartOffset / getStopOffset in Subscribe")
+		return
+	}
+	g, _ := eng.PrecededBy(fn, sp[0].(ssa.Instruction), func(x ssa.Instruction) bool { return x == st[0].(ssa.Instruction) })
+	c.Check(g, "the start position is resolved before the stop position", c.Pos(sp[0].(ssa.Instruction)), "getStartOffset precedes getStopOffset", "Subscribe reads the stop position first: a message published between the two reads makes start = stop + 1 and a valid LATEST … STOP_LATEST request is refused as `stop offset is before start offset`")
+}
+
+// ruleScannersReturnFreshBuffers (R01.10 extension, shared with C10): what a segment scanner returns is backed by memory
+// allocated in that call. A buffer kept in the scanner and re-used makes message N change under the consumer when N-1 is read.
+func ruleScannersReturnFreshBuffers(c *eng.Ctx) {
+	p := c.P
+	for _, k := range []string{cl + "(*segmentScanner).Scan", cl + "(*reverseSegmentScanner).Scan"} {
+		fn := c.Fn(k)
+		if fn == nil {
+			continue
+		}
+		var fresh func(v ssa.Value, d int) bool
+		fresh = func(v ssa.Value, d int) bool {
+			if d > 8 {
+				return false
+			}
+			switch x := v.(type) {
+			case *ssa.MakeSlice:
+				return true
+			case *ssa.Slice:
+				return fresh(x.X, d+1)
+			case *ssa.ChangeType:
+				return fresh(x.X, d+1)
+			case *ssa.Convert:
+				return fresh(x.X, d+1)
+			case *ssa.Alloc:
+				return true // an array literal of this call
+			case *ssa.Call:
+				if b, isB := x.Call.Value.(*ssa.Builtin); isB && b.Name() == "append" {
+					return fresh(x.Call.Args[0], d+1)
+				}
+				return false
+			case *ssa.Phi:
+				for _, e := range x.Edges {
+					if !fresh(e, d+1) {
+						return false
+					}
+				}
+				return true
+			case *ssa.Const:
+				return true
+			}
+			return false
+		}
+		ok, n := true, 0
+		for _, r := range eng.Returns(fn) {
+			rv := eng.RetVals(r)
+			if len(rv) == 3 && eng.NilConst(rv[2]) {
+				n++
+				if !fresh(rv[0], 0) {
+					ok = false
+				}
+			}
+		}
+		c.Check(ok && n > 0, "a scanned message set is backed by memory of that call in "+ir.FuncKey(fn), p.Pos(fn.Pos()), "the returned message set is allocated in Scan", "Scan returns a message set backed by a buffer the scanner keeps and re-uses: the message (and the Key / Value / Headers of the client message built from it) changes while the subscriber is still using it — one message's content is delivered twice, another's is lost")
+	}
+}
+
+// ruleReverseStartSlotUnclamped (R01.8 extension, shared with C08 and C10): the reverse scanner starts at the slot
+// findLastEntryIndex answers — including -1, "nothing at or below the offset in this segment", which the index scanner
+// turns into end-of-segment. Raising it to 0 makes a reverse read that starts in a compacted-away range deliver a message
+// ABOVE the requested start.
+func ruleReverseStartSlotUnclamped(c *eng.Ctx) {
+	p := c.P
+	fn := c.Fn(cl + "newReverseSegmentScanner")
+	if fn == nil {
+		return
+	}
+	ok := false
+	for _, call := range eng.CallsIn(fn, cl+"newReverseIndexScanner") {
+		a := call.Common().Args
+		if eng.Call(0, cl+"segment.findLastEntryIndex")(a[len(a)-1]) {
+			if _, isPhi := a[len(a)-1].(*ssa.Phi); !isPhi {
+				ok = true
+			}
+		}
+	}
+	c.Check(ok, "the reverse scanner starts at the slot findLastEntryIndex answered", p.Pos(fn.Pos()), "newReverseIndexScanner(index, entryIdx) with entryIdx unchanged", "newReverseSegmentScanner alters the slot findLastEntryIndex answered (a clamp of -1 to 0): on a compacted log a reverse read starting at an offset that was compacted away returns the first survivor above it")
+}
+
+// ruleGroupLeaveAndDeleteCoverEveryone (R12.5 extension): a leaving member is taken out of the subscriber heaps whatever it
+// holds (no return before the per-stream walk), and a stream deletion takes the stream away from EVERY subscriber (no
+// iteration of the subscriber loop skips the un-subscription) — a member that holds nothing is still in the heaps and still
+// has the stream in its subscription set.
+func ruleGroupLeaveAndDeleteCoverEveryone(c *eng.Ctx) {
+	p := c.P
+	if fn := c.Fn("server.(*consumerGroup).removeConsumer"); fn != nil {
+		walks := eng.CallsIn(fn, "server.rangeStreamsOrdered")
+		ok := len(walks) >= 1
+		var w *eng.Witness
+		if ok {
+			q := &eng.PathQuery{Fn: fn, FromEntry: true, Target: func(x ssa.Instruction) bool { _, isR := x.(*ssa.Return); return isR },
+				CutInstr: func(x ssa.Instruction) bool { return x == walks[0].(ssa.Instruction) }}
+			w = q.Find()
+			ok = w == nil
+		}
+		c.Check(ok, "a leaving member is removed from the heaps whatever it holds", p.Pos(fn.Pos()), "every path through removeConsumer walks the member's streams", "removeConsumer can return before it walks the member's streams (path "+w.String()+"): a member that leaves while holding no partition stays in the subscriber heaps as a ghost, is the least loaded at the next rebalance and is given partitions no member then owns")
+	}
+	if fn := c.Fn("server.(*consumerGroup).StreamDeleted"); fn != nil {
+		var unsub []ssa.Instruction
+		eng.Instrs(fn, func(in ssa.Instruction) {
+			call, isCall := in.(*ssa.Call)
+			if !isCall {
+				return
+			}
+			if b, isB := call.Call.Value.(*ssa.Builtin); isB && b.Name() == "delete" && eng.LoadNamed("streams", nil)(call.Call.Args[0]) {
+				unsub = append(unsub, in)
+			}
+		})
+		ok := len(unsub) == 1
+		var w *eng.Witness
+		if ok {
+			hdr := unsub[0].Block()
+			for hdr != nil && !isLoopHeader(hdr) {
+				hdr = hdr.Idom()
+			}
+			if hdr == nil {
+				ok = false
+			} else {
+				var body []eng.Edge
+				for si, sb := range hdr.Succs {
+					if sb.Dominates(unsub[0].Block()) || sb == unsub[0].Block() {
+						body = append(body, eng.Edge{From: hdr, Succ: si})
+					}
+				}
+				q := &eng.PathQuery{Fn: fn, FromEdges: body, Target: func(x ssa.Instruction) bool { return x == hdr.Instrs[0] }, CutInstr: func(x ssa.Instruction) bool { return x == unsub[0] }}
+				w = q.Find()
+				ok = w == nil && len(body) > 0
+			}
+		}
+		c.Check(ok, "a deleted stream is taken from every subscriber", p.Pos(fn.Pos()), "every iteration of the subscriber loop un-subscribes the member", "StreamDeleted can skip a subscriber (path "+w.String()+"): a member that held no partition of the stream keeps it in its subscription set while the heap is dropped; when the stream is created again that member is in no heap, and a restore from a snapshot — which rebuilds heaps from the subscription sets — diverges from the servers that applied the log")
+	}
+}
